@@ -157,9 +157,19 @@ def run_case(S: LogicSem, logic, case: Case, stats: Stats):
     apps = []
     try:
         target = rule.target(branch)
-        if target is None or 'adds' not in target:
+        if (target is None or 'adds' not in target) and case.kind in ('fat', 'nec'):
+            # a non-ticking rule without a target is at its fixpoint after zero
+            # applications: the node must then hold of every interpretation whose
+            # elements / accessible worlds are all named on the branch
+            if case.kind == 'fat' and not cs0:
+                return dict(status='structure',
+                            why='universal-type node on a branch without constants gets no expansion')
+            target = None
+        elif target is None or 'adds' not in target:
             return dict(status='notarget')
-        if case.kind == 'ticking':
+        if target is None:
+            pass
+        elif case.kind == 'ticking':
             apps.append([list(g) for g in target['adds']])
         else:
             # drive the non-ticking rule to its fixpoint on this branch
@@ -191,7 +201,12 @@ def run_case(S: LogicSem, logic, case: Case, stats: Stats):
         for n in all_adds:
             if n.get('sentence') is not None and n.get('world') != w0:
                 return dict(status='structure', why='expansion left the node\'s world')
-    I = Interp(S, 'spec', W=case.W, K=case.K)
+    K_eff = case.K
+    if case.kind == 'fat':
+        # "every element is named on the branch" is unsatisfiable (and the query
+        # vacuous) with more elements than constants
+        K_eff = max(1, min(case.K, len(cs0 | cs1)))
+    I = Interp(S, 'spec', W=case.W, K=K_eff)
     lhs = I.sat_node(case.node)
     ctx = I.sat_nodes(case.ctx)
     if case.kind == 'ticking':
@@ -200,7 +215,7 @@ def run_case(S: LogicSem, logic, case: Case, stats: Stats):
         rhs = exists_expand(I, body, new_c, new_w)
         assume = []
     else:
-        rhs = z3.And(*[I.sat_nodes(g) for groups in apps for g in groups])
+        rhs = z3.And(*[I.sat_nodes(g) for groups in apps for g in groups]) if apps else z3.BoolVal(True)
         # fresh names introduced by a non-ticking rule (first constant on an
         # empty branch) are existential as well
         rhs = exists_expand(I, rhs, new_c, new_w)
@@ -225,6 +240,10 @@ def run_case(S: LogicSem, logic, case: Case, stats: Stats):
     solver.add(*assume)
     if case.kind in ('nec',):
         solver.add(ctx)
+    if assume:
+        # vacuity guard: the naming assumption must be satisfiable
+        if stats.check(solver) != z3.sat:
+            return dict(status='vacuous')
     solver.add(lhs != rhs)
     r = stats.check(solver)
     if r == z3.unsat:
@@ -584,6 +603,9 @@ def run(ctx):
         seen = set()
         for res in r['results']:
             key = f'C04|{name}|{res["rule"]}'
+            if res['status'] == 'vacuous':
+                rep.harness_error(f'{name} {res["rule"]} on {res["label"]}: assumptions unsatisfiable (vacuous query)')
+                continue
             if res['status'] == 'unclassified':
                 rep.harness_error(f'{name}: rule class {res["rule"]} not classified by the harness')
                 continue
@@ -598,7 +620,8 @@ def run(ctx):
                     key + f'|{res["status"]}',
                     f'{name} {res["rule"]} on {res["label"]}: {res.get("why")}',
                     dict(kind='structure', logic=name, rule=res['rule'], node=res['node'],
-                         ctx=res['ctx'], case_kind=res['kind'], why=res.get('why')))
+                         ctx=res['ctx'], case_kind=res['kind'], why=res.get('why'),
+                         W=res.get('W', 1), K=res.get('K', 1)))
         # a rule class none of whose shapes produced a target was never checked
         never = sorted(set(r['rules']) - set(r['rules_ok']) - {x['rule'] for x in r['results']}
                        - {'Serial', 'Reflexive', 'Transitive', 'Symmetric'})
@@ -673,6 +696,7 @@ def replay(data):
         W = data['W']
         fde_style = any(getattr(r, 'designation', None) is not None for r in logic.Rules.all())
         d = True if fde_style else None
+        reset_order()
         tab = Tab(logic)
         branch = tab.branch()
         if not data.get('bare'):
@@ -706,11 +730,19 @@ def replay(data):
     branch.append(node)
     target = rule.target(branch)
     if kind == 'structure':
-        return True, f'structure violation: {data.get("why")}'
-    if target is None:
+        if 'gets no expansion' in str(data.get('why')):
+            return target is None, f'{data["logic"]} {data["rule"]}: target={target is not None}: {data.get("why")}'
+        # the structural findings are properties of the target just computed
+        res = run_case(LogicSem(data['logic']), logic,
+                       Case(rulecls, node, ctx=ctx, W=data.get('W', 1), K=data.get('K', 1),
+                            kind=data['case_kind']), Stats())
+        return res['status'] == 'structure', f'structure: {res.get("why", res["status"])}'
+    if target is None and data['case_kind'] not in ('fat', 'nec'):
         return False, 'rule produced no target in replay'
     apps = []
-    if data['case_kind'] == 'ticking':
+    if target is None:
+        pass
+    elif data['case_kind'] == 'ticking':
         apps.append([list(g) for g in target['adds']])
     else:
         for _ in range(12):
